@@ -124,6 +124,11 @@ func c17LimitsText(tb []c17Entry) string {
 		b.WriteString(" header 8KB\n")
 	}
 	for _, e := range tb {
+		if strings.ContainsAny(e.path, " \t") {
+			// a scope name with a space is one quoted Casketfile token: body "/files/my docs" 4
+			fmt.Fprintf(&b, " body \"%s\" %d\n", e.path, e.limit)
+			continue
+		}
 		fmt.Fprintf(&b, " body %s %d\n", e.path, e.limit)
 	}
 	b.WriteString("}\n")
@@ -820,6 +825,198 @@ func c17WireGen(g *hx.Gen) {
 	}
 }
 
+// ---- c17.target: the wire spelling of the request path, parsed by the real net/http server ----
+//
+// c17.target  cs  table  target  data  framing  buf     out = <delivered hex> TAB <first error>  |  unreached TAB <status>
+// `target` is written verbatim into the request line of a raw HTTP/1.1 request on a loopback
+// connection (no client library re-spells it), so r.URL.Path / r.URL.RawPath are exactly what the
+// server derives from that spelling: unreserved characters gratuitously percent-encoded
+// (/upl%6Fad, /%75pload/x), scope names that must be escaped on the wire (/files/my%20docs/x),
+// non-ASCII bytes raw or encoded, %2F, upper/lower-case hex digits.  The body limit that applies is
+// the one of the longest scope matching the DECODED path, whatever the spelling.
+
+func c17TargetEval(f []string) (string, []string) {
+	if len(f) != 6 {
+		return "bad-case", nil
+	}
+	cs := f[0] == "1"
+	tb := c17Table(f[1])
+	target := hx.UnHS(f[2])
+	data := hx.UnH(f[3])
+	buf, _ := strconv.Atoi(f[5])
+	if buf < 1 || target == "" || strings.ContainsAny(target, " \r\n?#") {
+		return "bad-case", nil
+	}
+	cfg, err := c17Setup("limits", c17LimitsText(tb))
+	if err != nil {
+		return "setup-error:" + err.Error(), nil
+	}
+	var mu sync.Mutex
+	var got []byte
+	firstErr := "-"
+	reached := false
+	sawTarget, sawPath := "", ""
+	inner := httpserver.HandlerFunc(func(w http.ResponseWriter, r *http.Request) (int, error) {
+		mu.Lock()
+		defer mu.Unlock()
+		reached = true
+		sawTarget, sawPath = r.RequestURI, r.URL.Path
+		p := make([]byte, buf)
+		for i := 0; i < len(data)+8; i++ {
+			n, err := r.Body.Read(p)
+			got = append(got, p[:n]...)
+			if err != nil {
+				firstErr = c17ErrName(err)
+				break
+			}
+		}
+		w.Header().Set("Connection", "close")
+		w.WriteHeader(200)
+		return 0, nil
+	})
+	h := c17Chain(cfg.Middleware(), inner)
+	c17mu.Lock()
+	defer c17mu.Unlock()
+	old := httpserver.CaseSensitivePath
+	httpserver.CaseSensitivePath = cs
+	defer func() { httpserver.CaseSensitivePath = old }()
+	srv := httptest.NewServer(http.HandlerFunc(func(w http.ResponseWriter, r *http.Request) { h.ServeHTTP(w, r) }))
+	defer srv.Close()
+	conn, err := net.Dial("tcp", srv.Listener.Addr().String())
+	if err != nil {
+		return "setup-error:dial", nil
+	}
+	defer conn.Close()
+	conn.SetDeadline(time.Now().Add(10 * time.Second))
+	var req strings.Builder
+	req.WriteString("POST " + target + " HTTP/1.1\r\nHost: c17.test\r\nConnection: close\r\n")
+	if f[4] == "chunked" {
+		req.WriteString("Transfer-Encoding: chunked\r\n\r\n")
+		for i := 0; i < len(data); i += 3 {
+			j := i + 3
+			if j > len(data) {
+				j = len(data)
+			}
+			fmt.Fprintf(&req, "%x\r\n%s\r\n", j-i, data[i:j])
+		}
+		req.WriteString("0\r\n\r\n")
+	} else {
+		fmt.Fprintf(&req, "Content-Length: %d\r\n\r\n%s", len(data), data)
+	}
+	if _, err := io.WriteString(conn, req.String()); err != nil {
+		return "setup-error:write", nil
+	}
+	resp, _ := io.ReadAll(conn) // the server closes after its answer
+	status := "0"
+	if p := strings.Fields(string(resp)); len(p) >= 2 {
+		status = p[1]
+	}
+	mu.Lock()
+	defer mu.Unlock()
+	if !reached {
+		return "unreached\t" + status, []string{"trivial-refused-by-net/http"}
+	}
+	if sawTarget != target {
+		return "setup-error:target-respelled:" + hx.HS(sawTarget), nil
+	}
+	tags := []string{f[4]}
+	if firstErr == "big" {
+		tags = append(tags, "cut-at-limit")
+	} else {
+		tags = append(tags, "within-limit")
+	}
+	if sawPath != target {
+		tags = append(tags, "spelling-differs-from-decoded-path")
+	} else {
+		tags = append(tags, "plain-spelling")
+	}
+	return hx.H(got) + "\t" + firstErr, tags
+}
+
+// c17Spell writes path p the way a client may spell it on the wire: bytes that cannot appear raw in
+// a request target are always percent-encoded, any other byte with probability 1/k (k = 0: never),
+// hex digits in either case.
+func c17Spell(g *hx.Gen, p string, k int) string {
+	var b strings.Builder
+	for i := 0; i < len(p); i++ {
+		c := p[i]
+		must := c <= 0x20 || c == 0x7f || c == '%' || c == '?' || c == '#'
+		if must || (i > 0 && k > 0 && g.Rng.Chance(1, k)) { // the leading slash stays: origin-form targets
+			if g.Rng.Chance(1, 2) {
+				fmt.Fprintf(&b, "%%%02X", c)
+			} else {
+				fmt.Fprintf(&b, "%%%02x", c)
+			}
+			continue
+		}
+		b.WriteByte(c)
+	}
+	return b.String()
+}
+
+func c17TargetGen(g *hx.Gen) {
+	root := hx.HS("/")
+	fr := func() string { return hx.Pick(g.Rng, []string{"cl", "chunked"}) }
+	bufp := func() string { return hx.Pick(g.Rng, []string{"1", "3", "512"}) }
+	// the nested table of a typical site: specific scopes under a looser root scope
+	tb := fmt.Sprintf("%s=%d,%s=%d,%s=%d,%s=%d", root, 9, hx.HS("/upload"), 3, hx.HS("/files/my docs"), 2, hx.HS("/caf\xc3\xa9"), 4)
+	for _, t := range []string{
+		"/upload", "/upload/a", "/upl%6Fad", "/upl%6fad/a", "/%75pload", "/%75pload/x", "/%75%70%6c%6f%61%64/x", "/upload%2Fa", "/upload%2fa",
+		"/UPLOAD/a", "/%55PLOAD/a", "/up%6Coad", "/uploa%64x", "/other", "/%6Fther", "/", "/%2e/upload", "/x/%2e%2e/upload/y", "/x%2F..%2Fupload",
+		"/files/my%20docs", "/files/my%20docs/x", "/files/my%20%64ocs/x", "/files/my+docs/x", "/files/my%2520docs/x", "/files/my", "/files%2Fmy%20docs%2Fx",
+		"/caf%C3%A9", "/caf%c3%a9/x", "/caf\xc3\xa9", "/caf\xc3\xa9/x", "/c%61f\xc3%A9/x", "/cafe", "/upl%6", "/upl%zzad", "/%",
+	} {
+		for _, n := range []int{2, 3, 4, 5, 9, 10} {
+			g.Case("0", tb, hx.HS(t), c17Data(n), fr(), bufp())
+		}
+	}
+	// a single root-only limit: no spelling changes anything
+	for _, t := range []string{"/", "/%75pload", "/a%20b"} {
+		for _, n := range []int{2, 3, 4} {
+			g.Case("0", fmt.Sprintf("%s=%d", root, 3), hx.HS(t), c17Data(n), fr(), bufp())
+		}
+	}
+	// random nested tables x random spellings of a request path at or below one of the scopes
+	N := 250
+	if g.Thorough() {
+		N = 3000
+	}
+	segs := []string{"a", "b", "up", "my docs", "A", "x~y", "caf\xc3\xa9", "50%", "a+b", "q?", "..", "."}
+	for it := 0; it < N; it++ {
+		k := 1 + g.Rng.Intn(4)
+		var scopes []string
+		ents := []string{}
+		if g.Rng.Chance(3, 4) {
+			ents = append(ents, fmt.Sprintf("%s=%d", root, 5+g.Rng.Intn(4)))
+		}
+		for i := 0; i < k; i++ {
+			p := ""
+			for s := 1 + g.Rng.Intn(3); s > 0; s-- {
+				p += "/" + hx.Pick(g.Rng, segs[:10])
+			}
+			if g.Rng.Chance(1, 6) {
+				p += "/"
+			}
+			scopes = append(scopes, p)
+			ents = append(ents, fmt.Sprintf("%s=%d", hx.HS(p), 1+g.Rng.Intn(5)))
+		}
+		for i := len(ents) - 1; i > 0; i-- {
+			j := g.Rng.Intn(i + 1)
+			ents[i], ents[j] = ents[j], ents[i]
+		}
+		req := hx.Pick(g.Rng, scopes)
+		switch g.Rng.Intn(4) {
+		case 0:
+			req += "/" + hx.Pick(g.Rng, segs)
+		case 1:
+			req += hx.Pick(g.Rng, segs) // same prefix, not the same segment
+		case 2:
+			req = "/" + hx.Pick(g.Rng, segs) + req
+		}
+		g.Case(strconv.Itoa(g.Rng.Intn(2)), strings.Join(ents, ","), hx.HS(c17Spell(g, req, g.Rng.Intn(5))), c17Data(4+g.Rng.Intn(7)), fr(), bufp())
+	}
+}
+
 // ---- c17.e2e: the values end to end, on a real listener shared by co-hosted sites ----
 //
 // c17.e2e  group  action
@@ -977,6 +1174,7 @@ func c17E2EGen(g *hx.Gen) {
 func init() {
 	hx.Register(&hx.Stream{ID: "C17", Name: "c17.e2e", Gen: c17E2EGen, Eval: c17E2EEval, Serial: true})
 	hx.Register(&hx.Stream{ID: "C17", Name: "c17.wire", Gen: c17WireGen, Eval: c17WireEval})
+	hx.Register(&hx.Stream{ID: "C17", Name: "c17.target", Gen: c17TargetGen, Eval: c17TargetEval})
 	hx.Register(&hx.Stream{ID: "C17", Name: "c17.reader", Gen: c17ReaderGen, Eval: c17ReaderEval})
 	hx.Register(&hx.Stream{ID: "C17", Name: "c17.scope", Gen: c17ScopeGen, Eval: c17ReaderEval})
 	hx.Register(&hx.Stream{ID: "C17", Name: "c17.match", Gen: c17MatchGen, Eval: c17MatchEval})
